@@ -176,8 +176,10 @@ Section Rx.
 End Rx.
 
 (* ---- correspondence ---- *)
-(* verify is instantiated with the table of calls observed on the real
-   Memoer.verify during the same run: ((vid, sig, ser), outcome). *)
+(* verify is mverify (key choice by vid code and .keep, modelled) over the
+   crypto proper, which is instantiated with the table of calls observed on the
+   real Memoer.verify during the same run: ((key text, sig, ser), outcome), and
+   the receiver's .keep as (vid, qvk) pairs. *)
 Definition vtable := list (bytes * bytes * bytes * res unit).
 Fixpoint vlookup (t : vtable) (v s m : bytes) : res unit :=
   match t with
@@ -189,7 +191,14 @@ Fixpoint vlookup (t : vtable) (v s m : bytes) : res unit :=
 Record obs_entry := { o_mid : bytes; o_grams : list (N * bytes); o_count : option N;
                       o_vid : option bytes; o_src : N }.
 
+Fixpoint klookup (k : list (bytes * bytes)) (vid : bytes) : option bytes :=
+  match k with
+  | [] => None
+  | (v, q) :: k' => if bytes_eqb v vid then Some q else klookup k' vid
+  end.
+
 Record case := { c_authic : bool;
+                 c_keep : list (bytes * bytes);
                  c_ops : list op;
                  c_verify : vtable;
                  c_excs : list (option exn);
@@ -224,7 +233,7 @@ Fixpoint list_eqb2 {A B} (eqb : A -> B -> bool) (x : list A) (y : list B) : bool
   end.
 
 Definition check_case (c : case) : bool :=
-  let (s, xs) := run (vlookup (c_verify c)) (c_authic c) init (c_ops c) in
+  let (s, xs) := run (mverify (vlookup (c_verify c)) (klookup (c_keep c))) (c_authic c) init (c_ops c) in
   list_eqb (option_eqb exn_eqb) xs (c_excs c)
   && list_eqb2 entry_eqb (rxgs s) (c_rxgs c)
   && list_eqb memo_eqb (rxms s) (c_rxms c)
@@ -267,7 +276,7 @@ Fixpoint branches (verify : bytes -> bytes -> bytes -> res unit) (authic : bool)
     here ++ branches verify authic (fst (step verify authic s o)) ops'
   end.
 Definition case_branches (c : case) : list nat :=
-  branches (vlookup (c_verify c)) (c_authic c) init (c_ops c).
+  branches (mverify (vlookup (c_verify c)) (klookup (c_keep c))) (c_authic c) init (c_ops c).
 Definition n_branches : nat := 16.
 
 (* ---- C20 correspondence: segmentation by the real rend, then delivery ---- *)
